@@ -84,6 +84,17 @@ def gen_group(rng, idx):
     return {"name": "g%d" % idx, "specs": specs}
 
 
+def load_corpus_dir(pid):
+    """minimised / interesting cases kept as files in corpus/<pid>/*.json, run first"""
+    d = os.path.join(os.path.dirname(os.path.dirname(os.path.abspath(__file__))), "corpus", pid)
+    out = []
+    if os.path.isdir(d):
+        for fn in sorted(os.listdir(d)):
+            if fn.endswith(".json"):
+                out.append(json.load(open(os.path.join(d, fn))))
+    return out
+
+
 def corpus_groups():
     def raw(*e):
         return {"mode": "raw", "entries": [{"k": k, "v": v} for k, v in e]}
@@ -207,7 +218,11 @@ def run(ctx):
     ctx.assumptions += ["header keys/values are printable ASCII (proto3 string fields require UTF-8; other bytes fail the whole batch's marshalling and go to the error handler — C27)",
                         "multi-valued keys and case-colliding keys are outside C29_full's hypothesis: the wire format keeps one value per key (witnesses in C29/Proofs.v)"]
     rng = ctx.rng
-    groups = corpus_groups() + [gen_group(rng, i) for i in range(24 if ctx.thorough else 6)]
+    groups = load_corpus_dir('C29') + corpus_groups() + [gen_group(rng, i) for i in range(24 if ctx.thorough else 6)]
+    if ctx.replay_path and os.path.exists(ctx.replay_path):  # bin/check C29 --replay replays/C29-...json
+        rp = json.load(open(ctx.replay_path)).get("replay", {})
+        if isinstance(rp.get("group"), dict):
+            groups.insert(0, dict(rp["group"], name="rp"))
     outp = os.path.join(ctx.work, "c29_out.jsonl")
     if os.path.exists(outp):
         os.remove(outp)
